@@ -118,6 +118,10 @@ class TransformedHistogramMixin(abc.ABC):
             kwargs = {**kwargs, "columns": False}
         if not transformed:
             values = self.transform(values)
+        elif isinstance(self, Histogram1D) and np.ndim(values) != 1:
+            raise ValueError(
+                f"Already transformed values must be a 1D array, shape {np.shape(values)} found."
+            )
         super().fill_n(values=values, weights=weights, dropna=dropna, **kwargs)  # type: ignore
 
     _projection_class_map: Dict[Tuple[int, ...], type] = {}
@@ -800,6 +804,10 @@ def extract_transformed_data(
         return None, None
     if transformed and issubclass(klass, Histogram1D):
         # Already transformed values of a one-dimensional histogram are a plain 1D array
+        if np.ndim(data) != 1:
+            raise ValueError(
+                f"Already transformed values must be a 1D array, shape {np.shape(data)} found."
+            )
         return extract_1d_array(data, dropna=dropna)
     _, array, array_mask = extract_nd_array(data, dim=None, dropna=dropna)
     if not transformed:
